@@ -1315,7 +1315,9 @@ def emit_dispatch(data):
             elif r == "outScalar":
                 A("  %s %s = c.out_scalar<%s>(%d);" % (P.ty, v, P.base, i))
             elif r == "outBuf":
-                A("  %s %s = c.out_buf<%s>(%d, %d);" % (P.ty, v, P.base, i, P.size))
+                # (a wrapper outside the translated subset has no known size argument: the row carries `unsupported`
+                #  entries and CApi.no_unsupported fails; the dispatcher still has to compile)
+                A("  %s %s = c.out_buf<%s>(%d, %d);" % (P.ty, v, P.base, i, P.size if P.size is not None else 0))
             elif r == "sizeInOut":
                 A("  %s %s = c.size_inout(%d);" % (P.ty, v, i))
             elif r == "inArray" or r == "inRaw":
